@@ -10,7 +10,7 @@ LEVEL = "exploration"
 RULE = (
     "generated panels (1..6 instances, 1..4 variables - up to 12 with default names -, 2..12 "
     "time points, arbitrary finite floats, arbitrary unique string/int column names or "
-    "defaults, Series or array cells, default or shifted instance index); from each of the six "
+    "defaults, Series or array cells, default, shifted, unsorted or string instance labels); from each of the six "
     "representations (built by harness code) ALL conversion paths of length <= 3 are run; "
     "every intermediate result is decoded by independent reader code to (3-D array, names) "
     "and compared exactly with the original (the long table orders variables by identifier; "
